@@ -1320,7 +1320,12 @@ def values_part(ctx, out, mb):
     # on_disconnect arguments after a loop error (reader-level protocol error, EOF)
     for ver in (V31, V311, V5):
         for api in (1, 2):
-            for stream, plan, rc in ((bytes.fromhex("30ffffffff01"), [], 2), (b"\x00", [], 2), (b"\xd0", [1, -1], 7), (b"\xd0\x00", [2, -2], 7)):
+            for stream, plan, rc in ((bytes.fromhex("30ffffffff01"), [], 2), (b"\x00", [], 2), (b"\xd0", [1, -1], 7), (b"\xd0\x00", [2, -2], 7),
+                                     # the stream ends / the connection is reset in the middle of the remaining-length field
+                                     (b"\x30\x80", [1, 1, -1], 7), (b"\x30\x80\x01", [1, 1, -2], 7),
+                                     # ... in the middle of a packet body (found by the mutation sweep: EOF there was not scheduled)
+                                     (b"\x30\x0a\x00\x01t", [1, 1, 3, -1], 7), (b"\x30\x0a\x00\x01txy", [1, 1, 3, -2], 7),
+                                     (b"\x30\x0a\x00\x01t", [1, 1, 1, 1, 1, -1], 7)):
                 k = Conn(ver, api)
                 k.s.inbuf += stream
                 k.s.plan.extend(plan)
